@@ -447,14 +447,22 @@ func (g *gen) randomAction(ctx sdk.Context, newTime time.Time) []action {
 				uband(int64(g.pick(5))), w.Treasuries[0].Addr, w.Owner.Addr, w.Owner.Addr))
 		}
 		n := app.OracleKeeper.GetDataSourceCount(ctx)
+		exe := []byte(fmt.Sprintf("exec-e-%d", g.step))
+		if g.chance(0.35) {
+			exe = oracletypes.DoNotModifyBytes // metadata-only edit: the stored file must stay
+		}
 		return one("editDS", w.Owner, oracletypes.NewMsgEditDataSource(oracletypes.DataSourceID(1+g.pick(int(n)+1)), "ds-e", "d",
-			[]byte(fmt.Sprintf("exec-e-%d", g.step)), uband(int64(g.pick(5))), w.Treasuries[1].Addr, w.Owner.Addr, w.Owner.Addr))
+			exe, uband(int64(g.pick(5))), w.Treasuries[1].Addr, w.Owner.Addr, w.Owner.Addr))
 	case 5: // oracle script create / edit
 		code := [][]byte{testdata.Wasm1, testdata.Wasm4, testdata.Wasm1}[g.pick(3)]
 		if g.chance(0.5) {
 			return one("createOS", w.Owner, oracletypes.NewMsgCreateOracleScript(fmt.Sprintf("os-%d", g.step), "d", "schema", "url", code, w.Owner.Addr, w.Owner.Addr))
 		}
 		n := app.OracleKeeper.GetOracleScriptCount(ctx)
+		if g.chance(0.4) {
+			code = oracletypes.DoNotModifyBytes // metadata-only edit (mostly of a script that requests are using)
+			return one("editOS", w.Owner, oracletypes.NewMsgEditOracleScript(oracletypes.OracleScriptID(1+g.pick(5)), "os-m", "d", "schema", "url", code, w.Owner.Addr, w.Owner.Addr))
+		}
 		return one("editOS", w.Owner, oracletypes.NewMsgEditOracleScript(oracletypes.OracleScriptID(1+g.pick(int(n)+1)), "os-e", "d", "schema", "url", code, w.Owner.Addr, w.Owner.Addr))
 	case 6: // oracle (re)activate
 		v := g.val()
